@@ -2,6 +2,7 @@ import Chewing.Props.C04
 import Chewing.Props.C06
 import Chewing.Proofs.EditorCursor
 import Chewing.Proofs.EditorBound
+import Chewing.Proofs.EditorRevalidate
 /-!
 # C05 — editing keys act exactly at the cursor and the buffer stays bounded
 
@@ -560,6 +561,13 @@ theorem jump_shared {e e' : Editor D L} {w : Nat} {okk : Bool} (h : e.jump env w
     methods only** -/
 theorem apply_reach {e e' : Editor D L} (op : Op L) (h : e.apply env op = .ok e') :
     Reach e.shared.com e'.shared.com := by
+  -- the final `revalidate_selecting` of the option / layout / dictionary calls at most pops the saved cursor
+  have reval : ∀ (e1 : Editor D L), Reach e.shared.com e1.shared.com → e1.revalidate env = .ok e' →
+      Reach e.shared.com e'.shared.com := by
+    intro e1 hr hv
+    rcases revalidate_shared env hv with h1 | h1
+    · rw [h1]; exact hr
+    · rw [h1]; exact hr.trans (Reach.popCursor _)
   cases op with
   | key ev =>
     obtain ⟨⟨e1, b⟩, hr, hx⟩ := map_ok h; subst hx; exact processKey_reach env hr
@@ -582,21 +590,26 @@ theorem apply_reach {e e' : Editor D L} (op : Op L) (h : e.apply env op = .ok e'
     show Reach e.shared.com (Editor.leaveIfEmpty env _).shared.com
     rw [leaveIfEmpty_shared]; exact .refl _
   | setOptions o =>
-    injection h with h; subst h
+    refine reval _ ?_ h
     show Reach e.shared.com (Editor.leaveIfEmpty env _).shared.com
     rw [leaveIfEmpty_shared]
     dsimp only
     split <;> exact .refl _
   | setLayout l =>
-    injection h with h; subst h
+    refine reval _ ?_ h
     show Reach e.shared.com (Editor.leaveIfEmpty env _).shared.com
     rw [leaveIfEmpty_shared]; exact .refl _
   | setEngine k => injection h with h; subst h; exact .refl _
   | learn k p =>
-    obtain ⟨⟨sh, b⟩, hr, hx⟩ := map_ok h; subst hx
-    show Reach e.shared.com sh.com
-    rw [(learnPhrase_com env e.shared k p).elim hr]; exact .refl _
-  | unlearn k p => injection h with h; subst h; exact .refl _
+    simp only [Editor.apply] at h
+    split at h
+    · rename_i sh b hr
+      refine reval _ ?_ h
+      show Reach e.shared.com sh.com
+      rw [(learnPhrase_com env e.shared k p).elim hr]; exact .refl _
+    · cases h
+    · cases h
+  | unlearn k p => exact reval { e with shared := Shared.unlearnPhrase env e.shared k p } (.refl _) h
   | jump w =>
     obtain ⟨⟨e1, b⟩, hr, hx⟩ := map_ok h; subst hx
     show Reach e.shared.com e1.shared.com
